@@ -32,6 +32,15 @@ claim("C04", "model_checking",
       "TLA+ contract spec (ControllerBase.tla) + as-coded spec (Controller.tla) model-checked by TLC; "
       "trace validation of the real controller's callbacks (TraceController.tla)")
 
+claim("C06", "model_checking",
+      "every tree up to the token bound (TLC-enumerated behaviours of TreeGen.tla) plus simulated deeper "
+      "ones is fed to the real simplify_ast; TLC judges each input/output pair under every valuation of "
+      "the condition flags (same executed leaf sequence, no exception)",
+      "trusted: the tree exporter/builder of the harness; conditions restricted to flags, negations and "
+      "constants as the property states",
+      "TLA+ contract spec (Simplify.tla over Tree.tla) model-checked by TLC over input/output pairs of "
+      "the real simplify_ast; inputs are TLC-generated behaviours of TreeGen.tla")
+
 NOT_YET = "check not built yet (work in progress, see DESIGN.md section 11)"
 NOT_APPLICABLE = {}
 
